@@ -85,6 +85,15 @@ class _Gen:
             form = "up"
         if form == "tile":
             self.use_excl_arr = use_excl_arr = False
+        if form == "tile" and r.random() < 0.3:
+            # two nested tiled loops (2D tiling): the inner loop's @outer part has to float up past the outer loop's @inner part
+            self.features.add("tile")
+            self.features.add("tile-2d")
+            body = self.stmts(1, 0, "g", False, False, False, None, "        ")
+            ty, tx = r.choice([2, 4]), r.choice([2, 4])
+            return ("  for (int gy = 0; gy < 8; ++gy; @tile(%d, @outer, @inner)) {\n"
+                    "    for (int gx = 0; gx < n / 8; ++gx; @tile(%d, @outer, @inner)) {\n"
+                    "        const int g = gy * (n / 8) + gx;\n" % (ty, tx)) + body + "    }\n  }\n"
         if form == "tile":
             self.features.add("tile")
             body = self.stmts(1, 0, "g", False, False, False, None, "      ")
